@@ -8,4 +8,7 @@ Extraction "model.ml"
   api_relative api_relative_spec api_relative_check
   api_base api_first api_dir api_ext api_trim_prefix api_trim_suffix api_trim_ext api_name api_has
   api_has_prefix api_has_suffix api_mash api_trim_first api_trim_last api_concat api_parse_paths
-  api_is_empty api_trim_protocol api_kf_ext_class.
+  api_is_empty api_trim_protocol api_kf_ext_class
+  api_it_drop api_it_drop_spec api_it_slice api_it_slice_spec api_it_first api_it_first_result
+  api_it_last_result api_it_single api_it_some api_it_consume api_str_size api_str_to_bool
+  api_str_trim_suffix api_opt_has api_take_while_ne.
